@@ -23,7 +23,7 @@ func init() {
 			"when it has no waiters AND no holders, and a fresh entry is inserted before the mutex is released; (6) read weight 1, write weight rwRatio = capacity, " +
 			"release returns the weight acquire took. NOT decided: that admitted callers overlap only as allowed under every schedule (follows informally from 1-5), timing ('at once'), rwRatio<1.",
 		Assumptions: []string{"container/list and sync behave as documented", "paths: loops are explored for the first and one generalised iteration"},
-		Floors:      map[string]int{"C01.guarded-by": 6, "C01.lock-balance": 8, "C01.grant-guard": 2, "C01.grant-triple": 1, "C01.cancel-path": 1, "C01.entry-delete": 1, "C01.entry-insert": 1, "C01.entry-idle": 4, "C01.weights": 5},
+		Floors:      map[string]int{"C01.guarded-by": 6, "C01.lock-balance": 8, "C01.grant-guard": 2, "C01.grant-triple": 1, "C01.cancel-path": 1, "C01.entry-delete": 1, "C01.entry-insert": 1, "C01.entry-idle": 4, "C01.weights": 6},
 		Run:         runC01,
 	})
 }
@@ -95,6 +95,53 @@ func runC01(c *Ctx) {
 		}
 	}
 	s.checkWeights()
+	s.checkRangeOption()
+}
+
+// checkRangeOption: the option record hands the configured rwRatio on unchanged: after the option functions ran,
+// RangeOption may overwrite rwRatio only on a path that found it below 1 (a ratio for which nothing can ever be
+// admitted). A guard `<= 1` silently turns WithRwRatio(1) — one reader at a time — into the default of 10.
+func (s *semapCtx) checkRangeOption() {
+	c := s.c
+	fn := c.mustFn("syncx/semap", "RangeOption")
+	rw := c.mustField("syncx/semap", "_Option", "rwRatio")
+	if fn == nil || rw == nil {
+		return
+	}
+	noInl := func(*ssa.Function, int) bool { return false }
+	traces, _ := c.Trace(fn, TraceConfig{Inline: noInl})
+	ok, n := true, 0
+	for _, t := range traces {
+		applied := false
+		for i, e := range t.Events {
+			if e.Kind == EvCall && e.Val != nil {
+				applied = true // an option function ran
+			}
+			if e.Kind == EvBranch && e.Cond.mentions("$"+fn.Params[0].Name()) {
+				applied = true // the option loop was evaluated (possibly zero options)
+			}
+			if e.Kind == EvStore && e.Addr.isFieldAddrOf(rw) && applied {
+				n++
+				facts := t.factsBefore(i)
+				// the current ratio was found < 1 (<= 0)
+				below := false
+				for j := i - 1; j >= 0; j-- {
+					x := t.Events[j]
+					if x.Kind == EvLoad && x.Addr.isFieldAddrOf(rw) {
+						below = factsImplyGE0(facts, lf(x.Res).scale(big.NewInt(-1))) // 0 - ratio >= 0
+						break
+					}
+				}
+				if !below && ok {
+					ok = false
+					c.violated("C01.weights", "semap.RangeOption", e.Pos, "the configured rwRatio is overwritten after the options were applied without having been found below 1: a valid ratio (e.g. 1, one reader at a time) is silently replaced and more readers than configured are admitted", c.witness(t, i)...)
+				}
+			}
+		}
+	}
+	if ok {
+		c.holds("C01.weights", "semap.RangeOption", fn.Pos(), fmt.Sprintf("rwRatio passed through (%d guarded overrides)", n))
+	}
 }
 
 func lockOpOnField(e *Event, m *types.Var) bool {
